@@ -662,28 +662,36 @@ def emptyRoot : PBox → PBox
   | .para id _ lineH st => .para id 0 lineH st
   | .block id st _ => .block id st []
 
+/-- Requested side of a pending break (`remake_page`): `some true` = right page. -/
+def requestedSide (ltr : Bool) : Option Brk → Option Bool
+  | some .left => some false
+  | some .right => some true
+  | some .recto => some ltr
+  | some .verso => some (!ltr)
+  | _ => none
+
+/-- `blank = (next_page_side == 'left' and right_page) or (next_page_side == 'right' and not right_page)` -/
+def isBlank (side : Option Bool) (rightPage : Bool) : Bool :=
+  (side == some false && rightPage) || (side == some true && !rightPage)
+
+/-- `context.forced_break = (next_page['break'] != 'any' or next_page['page'])` -/
+def forcedBreakOf (np : NextPage) : Bool :=
+  np.brk.isSome || (match np.page with | some p => p ≠ "" | none => false)
+
 /-- `remake_page` + `make_page` for page `index` (0-based). -/
 def remakePage (d : Doc) (index : Nat) (resume : Option Resume) (nextPage : NextPage) (rightPage : Bool)
     : Option Page :=
-  let side : Option Bool :=    -- next_page_side: some true = right
-    match nextPage.brk with
-    | some .left => some false
-    | some .right => some true
-    | some .recto => some d.rootLtr
-    | some .verso => some (!d.rootLtr)
-    | _ => none
-  let blank := (side = some false && rightPage) || (side = some true && !rightPage)
+  let blank := isBlank (requestedSide d.rootLtr nextPage.brk) rightPage
   let name := if blank then "" else (match nextPage.page with | some p => p | none => "")
-  let forced := nextPage.brk.isSome || (match nextPage.page with | some p => p ≠ "" | none => false)
-  let c : Ctx := { pageBottom := d.pageH, currentPage := index + 1, forcedBreak := forced }
+  let c : Ctx := { pageBottom := d.pageH, currentPage := index + 1, forcedBreak := forcedBreakOf nextPage }
   let root := if blank then emptyRoot d.root else d.root
-  let r := layoutBox c root 0 0 0 resume false true []
-  match r.frag with
+  match (layoutBox c root 0 0 0 resume false true []).frag with
   | none => none      -- `assert root_box`
   | some f =>
-    let (resume', nextPage') := if blank then (resume, nextPage) else (r.resume, r.nextPage)
+    let r := layoutBox c root 0 0 0 resume false true []
     some { type := { right := rightPage, blank := blank, name := name, index := index },
-           root := f, resume := resume', nextPage := nextPage' }
+           root := f, resume := if blank then resume else r.resume,
+           nextPage := if blank then nextPage else r.nextPage }
 
 /-- `make_all_pages` with fuel; `none` = `assert root_box` failed or fuel exhausted. -/
 def makeAllPages (d : Doc) : (fuel : Nat) → (index : Nat) → Option Resume → NextPage → Bool → Option (List Page)
